@@ -122,6 +122,16 @@ def run(facts, R):
     # in a coroutine the parameters are captured: arg1.<name>; fall back on the declared types of the async fn's captures
     if not sem_arg:
         sem_arg = any("Semaphore" in b.local_ty(l) for l in range(len(b.locals)) if b.debug_name(l) and b.debug_name(l) in a0)
+    if not sem_arg:
+        # ... or a small per-connection wrapper around the semaphore (`struct OffReaderSlots(Option<Arc<Semaphore>>)`) handed down the same way
+        def _wraps_sem(ty):
+            a_ = facts.adts.get(ty.replace("&mut ", "").lstrip("&").split("<")[0])
+            return bool(a_) and a_.get("kind") == "struct" and any("Semaphore" in (f_.get("ty") or "") for f_ in a_["variants"][0]["fields"])
+        sem_arg = any(_wraps_sem(b.local_ty(l)) for l in range(len(b.locals)) if b.debug_name(l) and b.debug_name(l) in a0)
+        if not sem_arg and b.kind == "coroutine":
+            pb_ = facts.bodies.get(b.path[:-len("::{closure#0}")])
+            if pb_ is not None:
+                sem_arg = any(_wraps_sem(pb_.local_ty(a_)) for a_ in range(1, pb_.argc + 1) if pb_.debug_name(a_) and pb_.debug_name(a_) in a0)
     R.check(sem_arg and "Semaphore::new" not in a0, "permit-before-spawn", b.path, "acquires the per-connection semaphore", "try_acquire_owned on %s" % a0, at.get("span"), a0)
     # the closure captures the permit produced by this acquire
     clo = s.op(st["args"][0])
@@ -247,7 +257,15 @@ def run(facts, R):
     for i, t in sends:
         fs = texts(facts_at(b, s, facts, i))
         msg = render_n(s.op(t["args"][1]))
-        ok = any(x.endswith("notify is False") for x in fs) and msg.startswith("message::create_error_response_like(arg1.request, ErrorCode::ResourceExhausted")
+        mv = s.op(t["args"][1])
+        # built from this request: the owned request handed in, or the owned copy of the request view handed in (`view.to_message()`)
+        req_ok = False
+        if is_call(mv, "create_error_response_like") and len(mv[2]) >= 2:
+            rq = mv[2][0]
+            if is_call(rq, "to_message") and len(rq[2]) == 1:
+                rq = rq[2][0]
+            req_ok = rq[0] == "field" and rq[1][0] == "arg" and rq[1][1] == 1 and rq[2] in ("request", "view") and render_n(mv[2][1]).startswith("ErrorCode::ResourceExhausted")
+        ok = any(x.endswith("notify is False") for x in fs) and req_ok
         R.check(ok, "saturation-branch", b.path, "ResourceExhausted reply built from the request, only for non-notify", "saturated reply %s under %s" % (msg[:100], [x[-40:] for x in fs]), t.get("span"),
                 "create_error_response_like(request, ResourceExhausted) iff !notify")
     rows = value_rows(b, s, facts, 0)
@@ -261,6 +279,9 @@ def run(facts, R):
         for i, t in bb.calls():
             if t["callee"]["path"].endswith("Semaphore::new") and bb.path.startswith(WS):
                 sems.append((bb, i, t))
+    # (one source site may be seen twice once a constructor helper and its closure were spliced into the connection function)
+    seen_sp = set()
+    sems = [x for x in sems if not (x[2].get("span") in seen_sp or seen_sp.add(x[2].get("span")))]
     ok = len(sems) == 1 and sems[0][0].path.startswith(hc.path)
     R.check(ok, "permit-before-spawn", "<crate>", "one Semaphore::new per connection", "Semaphore::new sites: %s" % [x[0].path for x in sems], None, "inside handle_connection_with_config")
     if ok:
